@@ -15,16 +15,21 @@ struct Case {
     double ideal = 60;
     int maxIter = 100;          // layout is stopped after this many iterations ("during" layout)
     bool nonOverlap = true;
+    // "desired moves": when non-empty every node is locked (cola::Lock through a PreIteration) to centre+(dx,dy);
+    // nodes with (0,0) stay where they are, the others are dragged past their neighbours along lattice lines
+    std::vector<std::pair<double, double>> locks;
     std::string str() const {
         Writer w; w.tok("topo").i(nodes.size()).i(edges.size()).d(ideal).i(maxIter).i(nonOverlap).nl();
         for (auto &n : nodes) w.d(n.x).d(n.y).d(n.w).d(n.h).nl();
         for (auto &e : edges) w.i(e.first).i(e.second).nl();
+        if (!locks.empty()) { w.tok("locks").nl(); for (auto &l : locks) w.d(l.first).d(l.second).nl(); }
         return w.str();
     }
     static Case parse(Reader &r) {
         Case c; r.expect("topo"); size_t n = r.i(), m = r.i(); c.ideal = r.d(); c.maxIter = r.i(); c.nonOverlap = r.i();
         for (size_t i = 0; i < n; i++) { R4 q; q.x = r.d(); q.y = r.d(); q.w = r.d(); q.h = r.d(); c.nodes.push_back(q); }
         for (size_t i = 0; i < m; i++) { int a = r.i(), b = r.i(); c.edges.push_back({a, b}); }
+        if (!r.eof()) { r.expect("locks"); for (size_t i = 0; i < n; i++) { double a = r.d(), b = r.d(); c.locks.push_back({a, b}); } }
         return c;
     }
 };
@@ -79,7 +84,10 @@ Verdict eval_c13(const Case &c) {
     for (size_t i = 0; i < n; i++) { x0[i] = rs[i]->getCentreX(); y0[i] = rs[i]->getCentreY(); }
     {
         cola::TestConvergence done(1e-4, c.maxIter);
-        cola::ConstrainedFDLayout alg(rs, es, c.ideal, cola::StandardEdgeLengths, &done);
+        cola::Locks locks;
+        for (size_t i = 0; i < c.locks.size() && i < n; i++) locks.push_back(cola::Lock(i, x0[i] + c.locks[i].first, y0[i] + c.locks[i].second));
+        cola::PreIteration pre(locks);
+        cola::ConstrainedFDLayout alg(rs, es, c.ideal, cola::StandardEdgeLengths, &done, c.locks.empty() ? nullptr : &pre);
         topology::ColaTopologyAddon topo(tn, routes);
         alg.setTopology(&topo);
         alg.setAvoidNodeOverlaps(c.nonOverlap);
@@ -90,10 +98,14 @@ Verdict eval_c13(const Case &c) {
     }
     bool moved = false;
     for (size_t i = 0; i < n; i++) if (std::fabs(rs[i]->getCentreX() - x0[i]) > c.nodes[i].w || std::fabs(rs[i]->getCentreY() - y0[i]) > c.nodes[i].h) moved = true;
-    v.nontrivial = bends && moved;
+    bool finalBends = false;
+    for (auto *rt : routes) if (rt->nSegments > 1) finalBends = true;
+    v.nontrivial = (bends || finalBends) && moved;
+    if (finalBends && !bends) v.cls("bends-created-by-layout");
     if (bends) v.cls("initial-bends");
     if (moved) v.cls("node-moved-more-than-its-size");
     if (c.maxIter < 100) v.cls("stopped-early");
+    if (!c.locks.empty()) v.cls("locked-drag");
     for (size_t i = 0; i < n && v.ok; i++) {
         if (!std::isfinite(rs[i]->getCentreX()) || !std::isfinite(rs[i]->getCentreY())) v.fail(fmt("node %zu has a non-finite position", i), "non-finite");
         for (size_t j = i + 1; j < n && v.ok; j++) {
@@ -156,12 +168,75 @@ Case gen_case() {
     c.nonOverlap = true;
     return c;
 }
+
+// Lattice scene in which every node is locked and some are dragged by lattice offsets: sides of different nodes
+// stay on exactly the same coordinate while the nodes slide past each other (ties in the scan order).
+Case gen_locked() {
+    Case c = gen_case();
+    size_t n = c.nodes.size();
+    // back on the lattice
+    for (auto &q : c.nodes) { q.x = std::floor(q.x / 10) * 10; q.y = std::floor(q.y / 10) * 10; }
+    for (size_t i = 0; i < n; i++) for (size_t j = i + 1; j < n; j++) {
+        auto &a = c.nodes[i], &b = c.nodes[j];
+        if (a.x < b.x + b.w && b.x < a.x + a.w && a.y < b.y + b.h && b.y < a.y + a.h) { c.nodes.resize(0); return c; }
+    }
+    int axis = irange(0, 2);        // 0: x only, 1: y only, 2: both
+    c.locks.assign(n, {0.0, 0.0});
+    int movers = irange(1, std::max<int>(1, (int)n / 2));
+    for (int k = 0; k < movers; k++) {
+        int i = irange(0, (int)n - 1);
+        double d = irange(-12, 12) * 10, e = irange(-12, 12) * 10;
+        c.locks[i] = {axis == 1 ? 0.0 : d, axis == 0 ? 0.0 : e};
+    }
+    c.maxIter = irange(1, 8);
+    return c;
+}
+
+// Two nodes with facing sides on exactly the same line slide past each other while an edge runs between them
+// (both bend round corners on that line within one pass); all eight lattice symmetries, extra bystanders.
+Case gen_slide() {
+    Case c;
+    double w1 = irange(2, 6) * 10, h1 = irange(2, 6) * 10, w2 = irange(2, 6) * 10, h2 = irange(2, 6) * 10, g = irange(1, 6) * 10;
+    R4 M{100, 120, w1, h1}, N{100 + w1, 120 - g - h2, w2, h2};
+    R4 A{(double)irange(0, 8) * 10, (double)irange(0, 10) * 10, 20, 20}, B{(double)irange(16, 30) * 10, (double)irange(14, 26) * 10, 20, 20};
+    c.nodes = {M, A, B, N};
+    int extra = irange(0, 4);
+    for (int k = 0; k < extra; k++) c.nodes.push_back({(double)irange(0, 30) * 10, (double)irange(0, 26) * 10, (double)irange(2, 5) * 10, (double)irange(1, 4) * 10});
+    size_t n = c.nodes.size();
+    for (size_t i = 0; i < n; i++) for (size_t j = i + 1; j < n; j++) {
+        auto &a = c.nodes[i], &b = c.nodes[j];
+        if (a.x < b.x + b.w && b.x < a.x + a.w && a.y < b.y + b.h && b.y < a.y + a.h) { c.nodes.resize(0); return c; }
+    }
+    c.edges.push_back({1, 2});
+    for (int k = irange(0, 2); k > 0; k--) { int a = irange(0, (int)n - 1), b = irange(0, (int)n - 1); if (a < b && !(a == 1 && b == 2)) c.edges.push_back({a, b}); }
+    std::sort(c.edges.begin(), c.edges.end()); c.edges.erase(std::unique(c.edges.begin(), c.edges.end()), c.edges.end());
+    c.locks.assign(n, {0.0, 0.0});
+    c.locks[0] = {0.0, -(double)irange(0, 12) * 10};
+    c.locks[3] = {0.0, (double)irange(0, 12) * 10};
+    if (coin(1, 4)) for (size_t i = 4; i < n; i++) c.locks[i] = {0.0, (double)irange(-6, 6) * 10};
+    bool tr = coin(1, 2), fx = coin(1, 2), fy = coin(1, 2);
+    for (size_t i = 0; i < n; i++) {
+        auto &q = c.nodes[i]; auto &l = c.locks[i];
+        if (fx) { q.x = 400 - q.x - q.w; l.first = -l.first; }
+        if (fy) { q.y = 400 - q.y - q.h; l.second = -l.second; }
+        if (tr) { std::swap(q.x, q.y); std::swap(q.w, q.h); std::swap(l.first, l.second); }
+    }
+    c.ideal = pick(std::vector<double>{60, 100, 150});
+    c.maxIter = irange(1, 8);
+    return c;
+}
 } // namespace
 
 int main(int argc, char **argv) {
     std::vector<Prop> props;
     props.push_back({"C13.topology", 1.0,
         [] { Case c = gen_case(); RC_PRE(c.nodes.size() >= 2 && !c.edges.empty()); return record("C13.topology", c.str(), [&] { return eval_c13(c); }); },
+        [](Reader &r) { return eval_c13(Case::parse(r)); }, nullptr});
+    props.push_back({"C13.locked", 1.0,
+        [] { Case c = gen_locked(); RC_PRE(c.nodes.size() >= 2 && !c.edges.empty()); return record("C13.locked", c.str(), [&] { return eval_c13(c); }); },
+        [](Reader &r) { return eval_c13(Case::parse(r)); }, nullptr});
+    props.push_back({"C13.slide", 1.0,
+        [] { Case c = gen_slide(); RC_PRE(c.nodes.size() >= 2 && !c.edges.empty()); return record("C13.slide", c.str(), [&] { return eval_c13(c); }); },
         [](Reader &r) { return eval_c13(Case::parse(r)); }, nullptr});
     return run_main(argc, argv, props);
 }
